@@ -26,6 +26,15 @@ impl std::ops::Rem for &Primitive {
 
         let (t1, t2) = (&self, &rhs);
 
+        // `MIN % -1` is 0, but Rust's `%` panics on it because the matching quotient overflows.
+        // `wrapping_rem` is the exact remainder for every pair of operands.
+        match (t1, t2) {
+            (Int(x), Int(y)) => return Ok(int!(x.wrapping_rem(*y))),
+            (BigInt(x), BigInt(y)) => return Ok(bigint!(x.wrapping_rem(*y))),
+            (BigInt(x), Int(y)) => return Ok(bigint!(x.wrapping_rem(*y as i128))),
+            _ => (),
+        }
+
         let math = apply_math_bin_op_if_applicable!(t1 % t2);
 
         if let Some(result) = math {
